@@ -477,7 +477,53 @@ func c19Fills(c *core.Ctx, idx int) {
 	rec.NonTrivial(core.Hash64("fills", name, fmt.Sprint(idx)))
 }
 
+// c19Neighbours: pairs of values of every length from 1 to 17 bytes that differ in a single bit of
+// their first, middle or last byte, decoded one after the other through one interned field: a
+// table whose key loses one bit of the value confuses exactly such a pair
+func c19Neighbours(c *core.Ctx, idx int) {
+	rec := c.Rec
+	r := c.Rand(idx)
+	cfg := instCfgs()[idx%4]
+	name := cfgName(cfg)
+	p := instNew(cfg)
+	for l := 1; l <= 17; l++ {
+		base := make([]byte, l)
+		for i := range base {
+			base[i] = byte('0' + r.IntN(75))
+		}
+		for _, pos := range []int{0, l / 2, l - 1} {
+			for bit := 0; bit < 8; bit++ {
+				other := append([]byte(nil), base...)
+				other[pos] ^= 1 << uint(bit)
+				for _, s := range []string{string(base), string(other)} {
+					a := c19Intern{A: s, N: null.StringFrom(s), I: 1}
+					data, err, pn := marshal(p, nil, &a)
+					if err != nil || pn != "" {
+						rec.Violation("interning", fmt.Sprintf("[%s] Marshal: %v %s", name, err, pn), nil)
+						return
+					}
+					var got c19Intern
+					var twin c19Plain
+					e1, p1 := unmarshal(p, data, &got)
+					e2, p2 := unmarshal(p, data, &twin)
+					rec.Eval(2)
+					if e1 != nil || e2 != nil || p1 != "" || p2 != "" || got.A != twin.A || got.N != twin.N || got.A != s {
+						rec.Violation("interning", fmt.Sprintf("[%s] two %d-byte values that differ in bit %d of byte %d through one interned field: %q decodes to %q / %q with the option, to %q / %q without (%v %v %s %s)", name, l, bit, pos, s, got.A, got.N.String, twin.A, twin.N.String, e1, e2, trunc1(p1), trunc1(p2)), nil)
+						return
+					}
+				}
+			}
+		}
+	}
+	rec.Count("one_bit_neighbour_runs", 1)
+	rec.NonTrivial(core.Hash64("neighbours", name, fmt.Sprint(idx)))
+}
+
 func c19Case(c *core.Ctx, idx int) {
+	if idx%31 == 13 {
+		c19Neighbours(c, idx)
+		return
+	}
 	if idx%23 == 9 {
 		c19Fills(c, idx)
 		return
